@@ -12,7 +12,7 @@ PAYLOADS = [
     ("closed", {"properties": {"a": {"const": 1}}, "additionalProperties": False, "minProperties": 1}),
     ("patterns", {"patternProperties": {"^x": {"type": "integer"}}, "additionalProperties": {"type": "string"}, "propertyNames": {"maxLength": 3}}),
     ("deps", {"dependencies": {"a": ["b"], "c": {"required": ["d"]}}, "maxProperties": 4}),
-    ("literals", {"properties": {"k": {"enum": [1, True, "1", None]}, "c": {"const": {"a": [1, True]}}}, "default": {"k": 1}}),
+    ("literals", {"properties": {"k": {"enum": [1, True, "1", None]}, "c": {"const": {"a": [1, True]}}, "d": {"const": {"tags": [{"name": "x"}], "m": [[{"y": 0}]]}}, "e2": {"enum": [[{"x": 0}], {"l": [{"q": [{"r": 1}]}]}]}}, "default": {"k": 1, "nest": [{"a": [{"b": 1}]}]}}),
     ("union", {"properties": {"u": {"type": ["integer", "string"], "minimum": 1}, "v": {"anyOf": [{"type": "integer"}, {"type": "array", "items": {"type": "string"}}]}}}),
     ("compat-names", {"properties": {"\ufb01le": {"type": "string"}, "\uff2b": {"type": "integer"}, "\u00b5": {"type": "null"}}, "required": ["\ufb01le"], "additionalProperties": False}),
     ("nested-property-keywords", {"dependencies": {"cc": {"properties": {"n": {"type": "integer"}}, "required": ["n"]}}, "additionalProperties": {"properties": {"z": {"type": "string"}}}, "patternProperties": {"^q": {"properties": {"w": {}}}}}),
@@ -21,7 +21,7 @@ PAYLOADS = [
     ("required-with-default", {"properties": {"a": {"type": "integer", "default": 1}, "b": {"type": "string"}}, "required": ["a", "b"]}),
     ("bare-list", {"properties": {"l": {"type": "array"}, "m": {"type": "array", "items": [{"type": "integer"}, {"type": "string"}]}}}),
 ]
-DESCRIPTIONS = [None, "plain description", 'with "quotes" and \\ backslash', "two\nlines", "trailing newline\n", "  leading blanks", "first\n    indented continuation\n    lines\n", "tab\there ", " "]
+DESCRIPTIONS = [None, "plain description", 'with "quotes" and \\ backslash', "two\nlines", "trailing newline\n", "  leading blanks", "first\n    indented continuation\n    lines\n", "tab\there ", " ", ""]
 
 
 def obj(payload, title=None, description=None):
